@@ -276,13 +276,21 @@ contract(f"{SA}.solve", scenarios=[(f"{'shuffled' if sh else 'fixed'}.{t}.", set
              "policy_greedy": lambda c, q: q.forall(0, N, lambda x: c.self.attrs["policy"].vec((x,)) == AC(Greedy(c.self.attrs["values"], c.gamma, ST(x)))) if isinstance(c.self.attrs["policy"], SArr) else z3.BoolVal(False)})
 
 # ---- _setup_config: key = PRNGKey(random_seed) (reproducibility: the whole key sequence is a function of the seed)
-def setup_sa_cfg(I):
-    from contracts.spec_mdp import ProblemStub
-    mod = I.load_module("mdpax.solvers.semi_async_value_iteration").globals
-    seed = z3.Int("random_seed"); g, e = z3.Real("gamma"), z3.Real("epsilon")
-    cfg = Obj(mod["SemiAsyncValueIterationConfig"], dict(_target_="t", problem=None, gamma=g, epsilon=e, max_batch_size=z3.Int("mbs"), jax_double_precision=True, verbose=0, checkpoint_dir=None,
-              checkpoint_frequency=0, max_checkpoints=1, enable_async_checkpointing=True, convergence_test="span", shuffle_states=True, random_seed=seed), label="config")
-    P = ProblemStub(I); s = Obj(mod["SemiAsyncValueIteration"], {}, label="solver")
-    return Ctx(self=s, _args=[P.obj, cfg], seed=seed, I=I)
-contract(f"{SA}._setup_config", setup=setup_sa_cfg, ensures={"key_is_PRNGKey_of_seed": lambda c, q: c.self.attrs["key"] == c.I.rand["KEY0"](c.seed)})
+def setup_sa_cfg(route):
+    def setup(I):
+        from contracts.spec_mdp import ProblemStub
+        mod = I.load_module("mdpax.solvers.semi_async_value_iteration").globals
+        seed = z3.Int("random_seed"); g, e = z3.Real("gamma"), z3.Real("epsilon"); mbs = z3.Int("mbs")
+        I.assume(z3.And(g >= 0, g <= 1, e > 0, mbs >= 1))
+        P = ProblemStub(I); s = Obj(mod["SemiAsyncValueIteration"], {}, label="solver")
+        if route == "config_object":
+            cfg = Obj(mod["SemiAsyncValueIterationConfig"], dict(_target_="t", problem=None, gamma=g, epsilon=e, max_batch_size=mbs, jax_double_precision=True, verbose=0, checkpoint_dir=None,
+                      checkpoint_frequency=0, max_checkpoints=1, enable_async_checkpointing=True, convergence_test="span", shuffle_states=True, random_seed=seed), label="config")
+            return Ctx(self=s, _args=[P.obj, cfg], seed=seed, I=I)
+        # keyword route (also what Hydra's instantiate does when a saved configuration is reloaded)
+        return Ctx(self=s, _args=[P.obj, None], _kwargs=dict(gamma=g, epsilon=e, max_batch_size=mbs, verbose=0, shuffle_states=True, random_seed=seed), seed=seed, I=I)
+    return setup
+contract(f"{SA}._setup_config", scenarios=[("config_object.", setup_sa_cfg("config_object")), ("kwargs.", setup_sa_cfg("kwargs"))],
+    ensures={"key_is_PRNGKey_of_seed": lambda c, q: c.self.attrs["key"] == c.I.rand["KEY0"](c.seed),
+             "seed_is_in_the_config": lambda c, q: toz3(c.self.attrs["config"].attrs["random_seed"]) == c.seed})
 from pyvc.contract import LoopSpec
